@@ -196,6 +196,8 @@ impl<'a, C> ParseState<'a, C> {
         self.env = ParseState::_build_env(input);
         self.len_env = self.env.len();
         self.head = head;
+        // 清空上一输入遗留的「中间解析结果」| 否则残留的预算值/词项/标点…会污染后续输入的解析
+        self.mid_result = MidParseResult::new();
     }
 
     /// 重置状态
